@@ -711,3 +711,39 @@ package ion
 //@ modifies nothing
 //@ ensures[C07] err == r.err
 //@ safe[C06]
+
+// ---------------------------------------------------------------------------
+// Timestamps in binary (bits.go, timestamp.go)
+
+//@ func (Timestamp).TruncatedNanoseconds
+//@ unroll loop0 10
+//@ modifies nothing
+//@ ensures[C15] 0 <= result && result <= 999999999
+//@ ensures[C15] ts.numFractionalSeconds >= 9 ==> result == ts.dateTime.Nanosecond()
+//@ ensures[C15] ts.numFractionalSeconds <= 9 ==> result == ts.dateTime.Nanosecond()/specPow10(9-ts.numFractionalSeconds)
+//@ safe[C06,C15]
+
+// The declared length of a binary timestamp equals the bytes appendTimestamp appends.
+//@ func appendTimestamp
+//@ split returns
+//@ ensures[C01,C04,C15] len(result) == len(b)+int(timestampLen(offset, utc))
+//@ ensures[C04] forall k int :: 0 <= k && k < len(b) ==> result[k] == old(b)[k]
+//@ safe[C04]
+
+// ---------------------------------------------------------------------------
+// buf.go: the buffer tree of the binary writer
+
+//@ func (*container).Len
+//@ modifies nothing
+//@ ensures[C04,C12] result == c.len+specTagLen(c.len)
+//@ safe[C04]
+
+//@ func (*datagram).Len
+//@ modifies nothing
+//@ ensures[C04] result == d.len
+//@ safe[C04]
+
+//@ func (atom).Len
+//@ modifies nothing
+//@ ensures[C04] result == uint64(len(a))
+//@ safe[C04]
